@@ -1,6 +1,7 @@
 /*! Window functions
 
-All functions are periodic, not symmetric.(?)
+All functions are symmetric (`w[n] == w[ntaps-1-n]`), as the window method of
+FIR design needs.
 
 <https://en.wikipedia.org/wiki/Window_function>
 <https://en.wikipedia.org/wiki/Spectral_leakage>
@@ -113,7 +114,9 @@ fn blackman(m: usize) -> Window {
     let mut b = Vec::with_capacity(m);
     for n in 0..m {
         let n = n as Float;
-        let m = m as Float;
+        // Symmetric window (like `hamming()`): the window method of filter
+        // design needs w[n] == w[m-1-n].
+        let m = m.saturating_sub(1).max(1) as Float;
 
         // Parameters.
         //
@@ -151,7 +154,8 @@ fn blackman_harris(m: usize) -> Window {
     let mut b = Vec::with_capacity(m);
     for n in 0..m {
         let n = n as Float;
-        let m = m as Float;
+        // Symmetric window, see `blackman()`.
+        let m = m.saturating_sub(1).max(1) as Float;
 
         // Formula.
         let t1 = 2.0 * PI * n / m;
